@@ -586,6 +586,10 @@ class ExprMixin:
                     return [(st, BoundMethod(("py", attr), obj))]
             else:
                 return [(st, BoundMethod(("py", attr), obj))]
+        if isinstance(obj, Sym):
+            # a symbolic primitive (int / bool / str / exact real): its methods are not modelled.  Falling through to
+            # getattr() on the wrapper would turn every such call into a bogus AttributeError path.
+            raise Unsupported(f"method or attribute `{attr}` of a symbolic {type(obj).__name__[1:].lower()} value", node)
         # concrete python object (module, class, enum member, function, ...)
         try:
             if (obj, attr) in self.class_attrs:
